@@ -196,6 +196,20 @@ CHECKS['C11'] = dict(
     design_ref='DESIGN.md section 6, C11',
     technique='Coq proof (close-sweep theorems on the endpoint model) + in-Coq trace correspondence with a real endpoint at random loss points; runtime clauses (on_close once, tasks stopped, no sends) by observation on the virtual-time loop')
 
+CHECKS['C08'] = dict(
+    text='Theorems (props/C08.v): SETUP is the first frame and written once for every schedule; ids opened are non-zero, of the '
+         'endpoint\'s parity and free, over every history; stream/channel requests carry the object\'s (positive) initial request-n, a '
+         'non-positive one is rejected and sends nothing; in reaction to ANY received frame the endpoint queues only an ERROR on that '
+         'frame\'s stream, the KEEPALIVE answer on stream 0 or the empty COMPLETE of a publisher-less responder; local actions queue '
+         'on their own stream only; a request-response requester never answers a frame; nothing is sent for a stream that is gone; the '
+         'close sweep sends nothing. REFUTED for abnormal channel endings (PAYLOAD after own CANCEL: KF-C08-channel-after-terminal). Tied to '
+         'the code by comparing every frame a real endpoint queues with the model section by section on recorded legal histories, plus '
+         'the per-stream protocol acceptor over emissions and prior receptions, client connects with requests issued while connecting, '
+         'and lease scenarios (KF-C08-lease-overtake). Partial: the acceptor (oracle) states the per-role frame-type table; the model '
+         'theorems cover it clause by clause rather than as one automaton refinement.',
+    design_ref='DESIGN.md section 6, C08',
+    technique='Coq proof (emission theorems on the endpoint model, SETUP-first and id theorems) + in-Coq trace correspondence of emitted frames with a real endpoint; per-stream acceptor as oracle')
+
 NOT_YET = {}
 
 def main():
